@@ -400,12 +400,12 @@ def mutate(rng, raw, mtu, inflate_discover=True):
         if op == W.OP_DISCOVER:
             fits = cap_stations(mtu)
             if inflate_discover:
-                struct.pack_into(">H", b, 34, rng.choice([0, 1, fits, fits + 1, 0xFFFF, 0x8000]))
+                struct.pack_into(">H", b, 34, rng.choice([0, 1, fits, fits + 1, 0xFFFF, 0x8000]) & 0xFFFF)
             else:
                 struct.pack_into(">H", b, 34, rng.choice([0, 1, (len(b) - 36) // 6]))
         elif op == W.OP_EMIT:
             fits = cap_emit(mtu)
-            struct.pack_into(">H", b, 32, rng.choice([0, 1, fits, fits + 1, 0xFFFF, 0x8000]))
+            struct.pack_into(">H", b, 32, rng.choice([0, 1, fits, fits + 1, 0xFFFF, 0x8000]) & 0xFFFF)
         elif op == W.OP_QLT:
             struct.pack_into(">H", b, 34, rng.choice([0, 1, 0x7FFF, 0x8000, 0xFFFF]))
         else:
